@@ -17,6 +17,7 @@ func c07(c *core.Ctx, r *core.Report) {
 	r.Explain("R07.dispatch: every type switch with a panicking default over a closed interface (ssa.Instruction, ssa.Value, ssa.CallInstruction, ssa.Node, dataflow.GraphNode) in the analysis packages is exhaustive over the interface's implementers as type-checked in Argot's own dependency graph (discovered, not listed); for callee-value switches the implementer set is restricted by a checker-side table of SSA kinds that can have function/interface type.")
 	r.Explain("R07.mode: the premise of the MultiConvert exception - every analysis.LoadProgramOptions literal outside tests sets BuildMode with ssa.InstantiateGenerics.")
 	r.Explain("R07.enqueue: necessary condition for termination of the three graph traversals - every append to the work queue is preceded (dominating if/return at function-body level) by a not-seen test on a key, paired with insertion of that key, and in both visitors by a lasso test over both the call trace and the closure trace.")
+	r.Explain("R07.deferbound: the defer analysis pushes a defer onto a stack only after scanning the whole stack for an earlier occurrence (bounds stack length by the number of defer statements, which is what makes its fixpoint loop terminate on defers inside loops).")
 	r.Explain("R07.worklist: the intra-procedural worklist (lang.RunForwardIterative) only re-queues successors when ChangedOnEndBlock() is true, and the block loop dequeues before visiting.")
 	r.NotDecided("termination or crash-freedom on all inputs; the ~130 explicit panic sites behind data-dependent guards are inventoried (R07.panics, info) but not gated.")
 
@@ -97,6 +98,8 @@ func c07(c *core.Ctx, r *core.Report) {
 	c07enqueue(c, r)
 	// ---- R07.worklist
 	c07worklist(c, r)
+	// ---- R07.deferbound
+	deferBoundRule(c, r, "R07.deferbound")
 	// ---- R07.panics (inventory)
 	n := 0
 	for _, rel := range scopePkgsC07 {
